@@ -332,6 +332,87 @@ pub async fn run_rpc_client<S: io::AsyncRead + io::AsyncWrite + Send>(
     service.run(ctx, transport).await.map_err(|e| format!("{e:#}"))
 }
 
+/// Callbacks of a raw gossip peer: what it answers to the node's `get_block` calls and what the node pushes to it.
+#[async_trait::async_trait]
+pub trait GossipProbe: Send + Sync {
+    async fn get_block(&self, ctx: &ctx::Ctx, number: validator::BlockNumber) -> anyhow::Result<Option<validator::Block>>;
+    async fn push_block_store_state(&self, ctx: &ctx::Ctx, state: BlockStoreState) -> anyhow::Result<()>;
+    async fn push_validator_addrs(&self, ctx: &ctx::Ctx, addrs: Vec<Arc<validator::Signed<validator::NetAddress>>>) -> anyhow::Result<()>;
+}
+
+struct GossipProbeHandler<'a>(&'a dyn GossipProbe);
+
+#[async_trait::async_trait]
+impl rpc::Handler<rpc::get_block::Rpc> for GossipProbeHandler<'_> {
+    fn max_req_size(&self) -> usize {
+        zksync_protobuf::kB
+    }
+    async fn handle(&self, ctx: &ctx::Ctx, req: rpc::get_block::Req) -> anyhow::Result<rpc::get_block::Resp> {
+        Ok(rpc::get_block::Resp(self.0.get_block(ctx, req.0).await?))
+    }
+}
+
+#[async_trait::async_trait]
+impl rpc::Handler<rpc::push_block_store_state::Rpc> for GossipProbeHandler<'_> {
+    fn max_req_size(&self) -> usize {
+        10 * zksync_protobuf::kB
+    }
+    async fn handle(&self, ctx: &ctx::Ctx, req: rpc::push_block_store_state::Req) -> anyhow::Result<()> {
+        self.0.push_block_store_state(ctx, req.state).await
+    }
+}
+
+#[async_trait::async_trait]
+impl rpc::Handler<rpc::push_validator_addrs::Rpc> for GossipProbeHandler<'_> {
+    fn max_req_size(&self) -> usize {
+        100 * zksync_protobuf::kB
+    }
+    async fn handle(&self, ctx: &ctx::Ctx, req: rpc::push_validator_addrs::Req) -> anyhow::Result<()> {
+        self.0.push_validator_addrs(ctx, req.0).await
+    }
+}
+
+/// Client halves of a raw gossip peer.
+pub struct GossipClients {
+    push_block_store_state: rpc::Client<rpc::push_block_store_state::Rpc>,
+    push_validator_addrs: rpc::Client<rpc::push_validator_addrs::Rpc>,
+    get_block: rpc::Client<rpc::get_block::Rpc>,
+}
+
+impl GossipClients {
+    pub fn new(ctx: &ctx::Ctx) -> Self {
+        Self {
+            push_block_store_state: rpc::Client::new(ctx, limiter::Rate::INF),
+            push_validator_addrs: rpc::Client::new(ctx, limiter::Rate::INF),
+            get_block: rpc::Client::new(ctx, limiter::Rate::INF),
+        }
+    }
+    pub async fn push_block_store_state(&self, ctx: &ctx::Ctx, state: BlockStoreState) -> Result<(), String> {
+        self.push_block_store_state.call(ctx, &rpc::push_block_store_state::Req { state }, zksync_protobuf::kB).await.map_err(|e| format!("{e:?}"))
+    }
+    pub async fn push_validator_addrs(&self, ctx: &ctx::Ctx, addrs: Vec<Arc<validator::Signed<validator::NetAddress>>>) -> Result<(), String> {
+        self.push_validator_addrs.call(ctx, &rpc::push_validator_addrs::Req(addrs), zksync_protobuf::kB).await.map_err(|e| format!("{e:?}"))
+    }
+    pub async fn get_block(&self, ctx: &ctx::Ctx, number: validator::BlockNumber, max_resp_size: usize) -> Result<Option<validator::Block>, String> {
+        self.get_block.call(ctx, &rpc::get_block::Req(number), max_resp_size).await.map(|r| r.0).map_err(|e| format!("{e:?}"))
+    }
+}
+
+/// Runs the RPC service of a raw gossip peer (the RPC set of `gossip::Network::run_stream` minus transactions) over `transport`.
+pub async fn run_gossip_peer<S: io::AsyncRead + io::AsyncWrite + Send>(ctx: &ctx::Ctx, transport: S, probe: &dyn GossipProbe, clients: &GossipClients) -> Result<(), String> {
+    rpc::Service::new()
+        .add_client(&clients.push_block_store_state)
+        .add_client(&clients.push_validator_addrs)
+        .add_client(&clients.get_block)
+        .add_server::<rpc::get_block::Rpc>(ctx, GossipProbeHandler(probe), limiter::Rate::INF)
+        .add_server::<rpc::push_block_store_state::Rpc>(ctx, GossipProbeHandler(probe), limiter::Rate::INF)
+        .add_server::<rpc::push_validator_addrs::Rpc>(ctx, GossipProbeHandler(probe), limiter::Rate::INF)
+        .add_server(ctx, rpc::ping::Server, rpc::ping::RATE)
+        .run(ctx, transport)
+        .await
+        .map_err(|e| format!("{e:#}"))
+}
+
 // ------------------------------------------------------------------------------------------------
 // pool, address book, fetch queue
 
